@@ -6,7 +6,7 @@ VARIABLE hist
 SliceActions ==
   {[op |-> "NewBuf", n |-> n] : n \in Lens}
   \cup {[op |-> "MakeView", off |-> o, len |-> l, mut |-> m] : o \in 0..Len(mem), l \in 0..Len(mem), m \in BOOLEAN}
-  \cup {[op |-> "Convert", how |-> h] : h \in {"as_slice", "deref", "into_slice", "to_c", "mut_to_ref", "reborrow", "as_slice_mut", "into_mut_slice"}}
+  \cup {[op |-> "Convert", how |-> h] : h \in {"as_slice", "deref", "into_slice", "to_c", "mut_to_ref", "reborrow", "as_slice_mut", "into_mut_slice"} \cup KeepHows}
   \cup {[op |-> "WriteThrough", k |-> k, v |-> 90 + k] : k \in 0..2}
 CellActions ==
   {[op |-> "NewCell", shape |-> "opt", tag |-> t] : t \in {0, 1}}
